@@ -126,11 +126,15 @@ impl Tracer {
         mode: &str,
         seed: u64,
     ) {
+        // live-size bound of churn scenarios (C13): parsed from the scenario name kind:layout:plan:nkeys:ops:mix
+        let parts: Vec<&str> = scen.split(':').collect();
+        let nk: u64 = parts.get(3).and_then(|x| x.parse().ok()).unwrap_or(0);
+        let churn = parts.get(5).map_or(false, |m| *m == "churn") as u8;
         let mut s = String::new();
         let _ = write!(
             s,
-            "{{\"op\":\"reset\",\"kind\":\"{}\",\"scen\":\"{}\",\"W\":{},\"es\":{},\"ea\":{},\"nd\":{},\"tr\":{},\"nt\":{},\"mode\":\"{}\",\"seed\":{},\"plans\":[",
-            kind, scen, w, es, ea, nd as u8, tracked as u8, nt, mode, seed % 1_000_000_007
+            "{{\"op\":\"reset\",\"kind\":\"{}\",\"scen\":\"{}\",\"W\":{},\"es\":{},\"ea\":{},\"nd\":{},\"tr\":{},\"nt\":{},\"mode\":\"{}\",\"seed\":{},\"nk\":{},\"churn\":{},\"plans\":[",
+            kind, scen, w, es, ea, nd as u8, tracked as u8, nt, mode, seed % 1_000_000_007, nk, churn
         );
         let plans = env::with(|e| e.plans.clone());
         for (i, p) in plans.iter().enumerate() {
